@@ -293,13 +293,12 @@ CalldataMustLines(T) ==
                 /\ A(T, f).params[j].name # ""
                 /\ WritesAnyForm(T, A(T, f).params[j].name, BodyScope(T, f)) = {}}}
            : f \in {g \in CFuncs(T) : A(T, g).fty = "function" /\ A(T, g).hasBody /\ HasVis(T, g, {"public", "external"})}}
-CalldataMustNotLines(T) ==
-    UNION {{A(T, f).params[i].lnStorage : i \in {j \in MemParams(T, f) :
-                \/ A(T, f).fty = "constructor"
-                \/ (A(T, f).params[j].name # "" /\ AssignedInBody(T, f, A(T, f).params[j].name))}}
-           : f \in AnyFn(T)}
+CalldataMustNot(T, f, j) ==
+    \/ A(T, f).fty = "constructor"
+    \/ (A(T, f).params[j].name # "" /\ AssignedInBody(T, f, A(T, f).params[j].name))
+\* per parameter, not per line: several parameters may share a line
 CalldataMayLines(T) ==
-    UNION {{A(T, f).params[i].lnStorage : i \in MemParams(T, f)} : f \in AnyFn(T)} \ CalldataMustNotLines(T)
+    UNION {{A(T, f).params[i].lnStorage : i \in {j \in MemParams(T, f) : ~CalldataMustNot(T, f, j)}} : f \in AnyFn(T)}
 
 \* sstore: exactly the plain assignments to an elementary-typed, non-constant, non-immutable state variable
 SstoreVars(T) == {VarName(T, v) : v \in {x \in StateVars(T) : IsElemVar(T, x) /\ ~A(T, x).constant /\ ~A(T, x).immutable}}
